@@ -142,6 +142,9 @@ impl Ctx {
         sw
     }
     fn small(&mut self, n: usize, cols: usize, size: usize, cap: usize, bits: usize) -> VBuf {
+        // one buffer in three has spare capacity (size < max_size) even when the caller did not ask for it: the limbs beyond the
+        // active size hold data too and must be ignored by every operation
+        let cap = if cap == size && self.rd.below(3) == 0 { size + 1 + self.rd.below(2) as usize } else { cap };
         let mut v = VBuf::new(n, cols, size, cap);
         let bits = bits.clamp(1, 64);
         let class = self.rd.below(8);
@@ -163,6 +166,7 @@ impl Ctx {
         v
     }
     fn big(&mut self, n: usize, cols: usize, size: usize, cap: usize, bits: usize) -> BigBuf {
+        let cap = if cap == size && self.rd.below(3) == 0 { size + 1 + self.rd.below(2) as usize } else { cap };
         let mut v = BigBuf::new(n, cols, size, cap);
         let bits = bits.clamp(1, if BIG_BYTES == 8 || self.opts.fft_safe { 62 } else { 120 });
         let mut r = self.rd.clone();
